@@ -13,7 +13,7 @@ BUILT = {
          "For every value of the alphabet and every tree of <=4 nodes the full product of admissible encodings of every node (integer widths, zero-padded bignums, text floats, four atom tags incl. Latin-1, STRING_EXT, non-minimal empty lists, small/large tuples, three generations of identifier tags, LOCAL_EXT, map entry orders, COMPRESSED) is decoded by every owned entry point (decode, decode_with_trailing, decode_with_atom_cache, decode_with_cache, decode_raw_term) and compared by value; larger trees vary one node at a time; plus history independence: each of 1 437 rejected inputs decoded 300 times on a fresh thread through four entry points, after which seven valid canaries must decode as on an untouched thread. Exhaustive inside those bounds.",
          "Trusted: independent reference reader/writer (vcore), flate2 for building compressed inputs. Each generated encoding is first accepted by the reference reader, so a generator bug stops the run (exit 70) instead of raising an alarm.", "3/C03"),
  "C08": ("exploration", "exhaustive enumeration of integer-tagged tuples up to arity 10 over a boundary alphabet, plus the protocol's operation table",
-         "All tuples {Tag,..} for Tag 0..255, arity 1..10 over a 9-symbol alphabet (exhaustive to arity 4/5, reduced alphabet above), every one parsed, re-serialised by both serialisers and sent through encode/decode; the 30 protocol operations are compared with an independently written (tag, arity, field order) table; 64-bit unlink ids at every representation boundary.",
+         "Wide, negative and bignum tags; all tuples {Tag,..} for Tag 0..255, arity 1..10 over a 9-symbol alphabet (exhaustive to arity 4/5, reduced alphabet above), every one parsed, re-serialised by both serialisers and sent through encode/decode; the 30 protocol operations are compared with an independently written (tag, arity, field order) table; 64-bit unlink ids at every representation boundary.",
          "Trusted: the protocol table transcribed from the ERTS distribution protocol chapter; vcore denotation.", "3/C08"),
  "C10": ("exploration", "exhaustive enumeration of identifier forms x contexts x conversion sequences, byte comparison",
          "Every identifier of the alphabet in plain and node-local form (3 hashes, deliberately non-canonical inner encodings) in 9 term contexts is decoded, pushed through every sequence of clone/move/borrowed-and-back up to length 2 (3 thorough) and re-encoded by both encoders; output must equal the input bytes; identifier types and whole context terms in different wire forms must be equal, hash alike and compare Equal.",
@@ -31,37 +31,37 @@ BUILT = {
          "Every tag x boundary values of its length/arity/count fields x tails, 21 nesting paths (containers, fun environment, LOCAL_EXT and the node/module/creator fields of every identifier and fun tag) to depth 2^16 (2^22 thorough), every truncation/mutation/splice of a corpus, compressed sections that lie about their size, fragment header prefixes - all through nine decode entry points in child processes on a 2 MiB-stack thread; outcome must be ok/err, peak requested bytes <= 512*(len+inflated)+256 KiB, over-declared inflation must be an error.",
          "Trusted: the supervisor and counting allocator in etfmc (alloc.rs, probe.rs), flate2 for measuring inflated sizes. The linear factor 512 and the 256 KiB slack are this check's reading of 'out of proportion'.", "3/C02"),
  "C04": ("model_checking", "explicit-state BFS over the real handshake machine + exhaustive enumeration of scripted-peer deviations against the real Connection::connect",
-         "(a) BFS over all sequences of the state machine's public methods with valid, malformed, stale, reflected and oversized arguments, every history replayed on a fresh real object; flag/cookie/name/creation sweeps, every truncation of every peer message and 180 unknown status words under catch_unwind; (b) the real connect over loopback against 13x12x12 scripted peer behaviours (incl. peers that insert an empty, junk or repeated frame and carry on) on a controller-owned clock, emitted bytes parsed by an independent reader, connection reused after close().",
+         "(a) BFS over all sequences of the state machine's public methods with valid, malformed, stale, reflected and oversized arguments, every history replayed on a fresh real object; flag/cookie/name/creation sweeps, every truncation of every peer message, 180 unknown status words and all 128 single-bit flips of the right acknowledgement digest under catch_unwind; (b) the real connect over loopback against 13x12x12 scripted peer behaviours (incl. peers that insert an empty, junk or repeated frame and carry on; 29 cookie executions: exact cookie connects, trimmed/padded/re-cased variants do not) on a controller-owned clock, emitted bytes parsed by an independent reader, connection reused after close().",
          "Trusted: independent handshake reader/writer and MD5 in vcore; fake EPMD and scripted peer in netmc; loopback TCP delivery order.", "3/C04"),
  "C05": ("model_checking", "exhaustive enumeration of environment answers (chunk sizes, Pending, EOF) against the real framer, plus every 1- and 2-cut over a real socket",
-         "(a) every composition of every short framed stream into read sizes, Pending at every position and pair of positions, EOF at every offset, short writes and Pending on the writer, cap boundary (cap-2..cap+1 by error kind, full 256 MiB frame in thorough) with allocation accounting; (b) receive_raw on a real socket under every single and double cut; frames sharing a segment with the handshake acknowledgement (every byte position of a two-frame stream) read through receive_raw and through the handed-over read half; send_raw sequences up to 2^20 bytes compared with the one-shot framing.",
+         "(a) every composition of every short framed stream into read sizes, Pending at every position and pair of positions, EOF at every offset, short writes and Pending on the writer, cap boundary (cap-2..cap+1 by error kind, full 256 MiB frame in thorough) with allocation accounting; (b) receive_raw on a real socket under every single and double cut; frames sharing a segment with the handshake acknowledgement (every byte position of a two-frame stream) read through receive_raw and through the handed-over read half; send_raw sequences up to 2^20 bytes compared with the one-shot framing; frames of 65535..2^20 bytes through receive_raw after a real handshake; truncated frames followed by close on the read-half path.",
          "Trusted: hand-rolled poll loop and scripted AsyncRead/AsyncWrite (etfmc/src/c05.rs); vcore framing reference.", "3/C05"),
  "C06": ("model_checking", "exhaustive enumeration of peer frame sequences x segmentations against the real receive loops",
          "Every sequence of <=2 (3) frames over a 14-21 frame alphabet (all pass-through control kinds, ticks, malformed frames, distribution-header and fragmented messages from a reference sender) x {whole, byte-by-byte, first frame split at every offset} through both receive entry points, compared with a reference receiver; a final valid message proves the stream is still in sync; fragment arrival orders (protocol layout and the layout the library reassembles) judged together; 12 executions of 300 rejected frames followed by a deeply nested valid message.",
          "Trusted: reference sender/fragmenter/readers in vcore; settle heuristic of the controller (4 idle yields); failing cases are re-run twice and only reported if they reproduce.", "3/C06"),
  "C07": ("model_checking", "exhaustive operation/argument enumeration read by an independent protocol reader + deviation-bounded schedule exploration of concurrent senders",
-         "Six operations x argument boundary values x both framing modes on a real Connection, peer byte log cut and read by independent readers; never-connected, refused, wrong-digest, peer-closed and closed connections; reconnect with other negotiated flags; a peer that stops reading under a 24 MiB message; 2-3 concurrent tasks through one Node with gates before the connection lock, between the partial writes of a frame and after it, all schedules within the deviation bound.",
+         "Six operations x argument boundary values x both framing modes on a real Connection, peer byte log cut and read by independent readers; never-connected, refused, wrong-digest, peer-closed and closed connections; reconnect with other negotiated flags; a peer that stops reading under a 24 MiB message; one caller's operations back to back behind a held connection; repeated Node operations after failures elsewhere; 2-3 concurrent tasks through one Node with gates before the connection lock, between the partial writes of a frame and after it, all schedules within the deviation bound.",
          "Trusted: vcore pass-through and distribution-header readers; gate hooks (cfg edp_rs_verif); individual tokio Mutex / socket operations are taken as atomic.", "3/C07"),
  "C09": ("model_checking", "explicit-state BFS whose transitions call the real FragmentAssembler + arrival-order enumeration against the real Connection",
-         "BFS over event histories (header, continuations, one duplicate, out-of-range ids, cleanup) for every message length 1..6 x fragment count x cut and for 2-4 interleaved sequences; every history replayed on a fresh real assembler; step oracle: delivery exactly at the last missing fragment with the original bytes, pending_count = incomplete sequences; the expiry clause on the real clock (six arrival orders, measured gaps); 324 histories with a reused sequence id; at the connection, all six arrival orders of a three-fragment message in two layouts, ticks and rejected fragment frames between fragments, reused ids.",
+         "BFS over event histories (header, continuations, one duplicate, out-of-range ids, cleanup) for every message length 1..6 x fragment count x cut and for 2-4 interleaved sequences; every history replayed on a fresh real assembler; step oracle: delivery exactly at the last missing fragment with the original bytes, pending_count = incomplete sequences; the expiry clause on the real clock (six arrival orders, measured gaps); 324 histories with a reused sequence id; six ways of constructing the assembler; at the connection, all six arrival orders of a three-fragment message in two layouts, ticks and rejected fragment frames between fragments, reused ids, receive_message abandoned between fragments.",
          "State key = reference table of ids received before/after the header per sequence, which determines the assembler's future outputs; nothing is sent for a sequence after it has been delivered.", "3/C09"),
  "C14": ("model_checking", "exhaustive header-shape enumeration read by an independent header reader + BFS over sender-cache histories through one real AtomCache",
-         "(a) k distinct atoms for k in {0..4,254,255,256} x atom lengths x four placements, encoded by the library, read by an independent implementation of the header layout and by the library; (b) BFS over all histories of <=3 (4) messages of a conforming sender model (new entry / reference / overwrite, 4 slots in 3 segments, header position != slot; every cached atom also as the node of a pid, port and reference), state = sender cache contents; (c) five whole-cache histories with 257..2048 live slots.",
+         "(a) k distinct atoms for k in {0..4,254,255,256} x atom lengths x four placements, encoded by the library, read by an independent implementation of the header layout and by the library; (b) BFS over all histories of <=3 (4) messages of a conforming sender model (new entry / reference / overwrite, 4 slots in 3 segments, header position != slot; every cached atom also as the node of a pid, port and reference), state = sender cache contents; (c) five whole-cache histories with 257..2048 live slots; (d) a message refused after its header (three kinds of body, decoder and connection entry point) between announcements and old references.",
          "Trusted: vcore header reader/writer; the as-is decoder model in c14.rs is used only to attribute the listed finding.", "3/C14"),
  "C15": ("exploration", "exhaustive value-family enumeration through both serde paths",
          "i8/u8/i16/u16 whole range, 32/64-bit integers at every power of two +-1, chars (all scalar values in thorough), f32 (all bit patterns in thorough), strings, and Option/Vec/tuple/HashMap/BTreeMap/struct/ElixirStruct/newtype/enum wrappers; options around empty and zero values, keyword field names; to_term/from_term and to_bytes/from_bytes must return the original value; 268 history cases (rejected input 900 times, then a byte round trip).",
          "Default feature set only (elixir-interop off). Values outside the listed families are not covered.", "3/C15"),
  "C16": ("model_checking", "loom DPOR over the real allocator + exhaustive baton interleavings of make_reference + long sequential histories",
-         "loom explores every interleaving (C11 memory model) of T threads x A allocate() calls on the real pid_allocator.rs from counter positions at the wrap points; all 20/1680 interleavings of make_reference's three counter steps for 2/3 threads; 3-5 x 2^20 sequential allocations across wraps; 3 (40) million sequential references; references around 0..6 failing unlinks queued behind a held connection.",
+         "loom explores every interleaving (C11 memory model) of T threads x A allocate() calls on the real pid_allocator.rs from counter positions at the wrap points; all 20/1680 interleavings of make_reference's three counter steps for 2/3 threads; 3-5 x 2^20 sequential allocations across wraps; 3 (40) million sequential references; references around 0..6 failing unlinks queued behind a held connection; every process identifier a node hands out (spawned processes interleaved with remote calls, reply-to identifiers read off the wire; an unstarted node connecting out).",
          "Trusted: loom 0.7.2; build.rs refuses to build if a std::sync import of pid_allocator.rs is not switched to loom. Preemption-bounded where stated in the evidence.", "3/C16"),
  "C17": ("model_checking", "deviation-bounded stateless exploration of the real Node rpc path under gate hooks, scripted peer and controller-owned clock",
-         "1-3 concurrent rpc callers; decision points offer parked gates (table insert/lookup/remove steps, frame writes, route miss) and environment events (reply, duplicate reply, reply to unknown pid, timer, peer close); every execution with at most `bound` non-default choices is run to completion and judged: own reply or legitimate timeout/error, nothing left in the pending table; a sequential history of 71 (301) calls with a straggler reply re-sent before every reply; a peer that stops reading under an oversized request with a second caller queued.",
+         "1-3 concurrent rpc callers; decision points offer parked gates (table insert/lookup/remove steps, frame writes, route miss) and environment events (reply, duplicate reply, reply to unknown pid, timer, peer close); every execution with at most `bound` non-default choices is run to completion and judged: own reply or legitimate timeout/error, nothing left in the pending table; a sequential history of 71 (301) calls with a straggler reply re-sent before every reply; a peer that stops reading under an oversized request with a second caller queued (raw entry point and public wrapper); calls failing on a broken second connection between calls that are still waiting.",
          "Trusted: gate placement (DESIGN 2.5), settle heuristic, DashMap/oneshot operations atomic; a blocked runtime thread is detected by a 60 s watchdog and reported as a hung schedule.", "3/C17"),
  "C18": ("model_checking", "exhaustive operation histories on a real Node against a reference model + deviation-bounded exploration of two-driver scenarios",
-         "Every history of <=3 (4) operations over an 18-operation alphabet compared step by step with a reference node model (delivery order, exit/monitor notices, name lifecycle); seven concurrent scenarios under gates in spawn/registry/exit propagation and cooperative-budget preemption; a gen_server whose caller terminates while its call is being handled; gen_event calls to installed, missing and failing handlers in four orders.",
+         "Every history of <=3 (4) operations over an 18-operation alphabet compared step by step with a reference node model (delivery order, exit/monitor notices, name lifecycle); seven concurrent scenarios under gates in spawn/registry/exit propagation and cooperative-budget preemption; a gen_server whose caller terminates while its call is being handled; gen_event calls to installed, missing and failing handlers in four orders; 1..40 messages queued behind a busy process; all histories of <=4 (5) link/unlink/monitor/demonitor operations followed by a failure.",
          "Trusted: reference model in c18.rs; notices to different recipients are unordered among each other.", "3/C18"),
  "C19": ("model_checking", "exhaustive enumeration of inbound event sequences against a real started Node",
-         "Every sequence of <=3 (4) events over a 21-event alphabet (routable and unroutable messages, exits, rpc reply, junk, framing breaks, silence) followed by a final probe; deliveries, connection table and the outstanding rpc compared with the ideal model; the listed idle-timeout finding is attributed through an as-is model.",
+         "Every sequence of <=3 (4) events over a 23-event alphabet (routable and unroutable messages, a crashed recipient, exits, rpc reply, four kinds of junk body, framing breaks, silence, a local send that fails) followed by a final probe; deliveries, connection table and the outstanding rpc compared with the ideal model; the listed idle-timeout finding is attributed through an as-is model.",
          "Trusted: reference models in c19.rs; virtual time only moves by explicit advance().", "3/C19"),
  "C20": ("exploration", "exhaustive grids over wrapper field values against i128 / calendar references",
          "Range boundary cube and small exhaustive ranges for len/contains/iteration/size_hint; every (month,day) byte pair x 14 years; 9^3x6x9 time grid; out-of-type-range fields; map sets, exceptions, builders, all proplists of length <=3 over 13 elements and maps of <=2 entries over keys of every term kind; term and wire round trips; derived Elixir struct mapping: 13 module names around the declared one, missing and ill-typed fields, non-map terms (serdemc).",
